@@ -1,29 +1,29 @@
-"""Translator part of C12: literals of `transports/sse/transport.py` regenerated into
-`lean/Verif/Gen/SseTiming.lean` on every run.
+"""Source literals of `transports/sse/transport.py` for the C12 generator (re-read on every run).
 
-* the cap on the initial connection attempt: `timeout=min(self.timeout, <literal>)` in
-  `_handle_sse_connection`;
-* the error codes of the two synthesised terminal messages in `_send_message_via_http`
-  (the dict literal whose message is "Request timeout", and the other `"code"` literals);
+No Lean file is generated from them.  What the Lean side needs from these literals: NOTHING.  Every C12 theorem holds for any
+connection cap, any timeout and any error codes (the property demands one terminal message with
+the request's id, not a particular code).  The literals are therefore INFORMATIONAL: they
+parametrise the generator (where to put the boundary cases of the connection cap, how to tell a
+synthesised timeout error from a synthesised failure error when comparing with the model) and are
+recorded in the evidence notes.  A literal that cannot be located is reported as a note, never as
+a broken obligation; the harness then measures the cap on the running code and compares the
+synthesised errors without looking at their codes.
+
+Located shapes (anywhere in the module, through module-level constants, constants imported
+from the package, and private builder functions):
+* the cap on the initial connection attempt: `min(<x>.timeout, CAP)`;
+* the error codes of synthesised terminal messages: dict displays `{"code": C, "message": M}`
+  where C / M are literals, constants, or parameters of an enclosing builder function whose
+  call sites supply them;
 * the default `timeout` of `SSEParameters`.
-
-Anything else than these shapes is reported as untranslatable (never guessed).
 """
 from __future__ import annotations
 
 import ast
 from pathlib import Path
 
-from . import translate
 
 FALLBACK = {"cap_ms": 15000, "timeout_code": -32000, "fail_codes": [-32603], "default_timeout_ms": 60000}
-
-
-def _find_func(tree, name):
-    for n in ast.walk(tree):
-        if isinstance(n, (ast.FunctionDef, ast.AsyncFunctionDef)) and n.name == name:
-            return n
-    raise LookupError(name)
 
 
 def _num(e):
@@ -33,96 +33,217 @@ def _num(e):
     return v
 
 
+class Module:
+    """One source module with its module-level constant bindings (resolved lazily, following
+    `from x import NAME` inside the package)."""
+
+    def __init__(self, path: Path, root: Path, depth=0):
+        self.path, self.root, self.depth = path, root, depth
+        self.tree = ast.parse(path.read_text())
+        self.assign = {}
+        self.imports = {}  # local name -> (module path, original name)
+        for st in self.tree.body:
+            if isinstance(st, ast.Assign) and len(st.targets) == 1 and isinstance(st.targets[0], ast.Name):
+                self.assign[st.targets[0].id] = st.value
+            elif isinstance(st, ast.AnnAssign) and isinstance(st.target, ast.Name) and st.value is not None:
+                self.assign[st.target.id] = st.value
+            elif isinstance(st, ast.ImportFrom):
+                target = self._module_file(st.module, st.level)
+                if target is not None:
+                    for a in st.names:
+                        self.imports[a.asname or a.name] = (target, a.name)
+
+    def _module_file(self, module, level):
+        if level == 0:
+            if not module or not module.startswith("chuk_mcp"):
+                return None
+            base = self.root.parent
+            parts = module.split(".")
+        else:
+            base = self.path.parent
+            for _ in range(level - 1):
+                base = base.parent
+            parts = module.split(".") if module else []
+        p = base.joinpath(*parts)
+        for cand in (p.with_suffix(".py"), p / "__init__.py"):
+            if cand.exists():
+                return cand
+        return None
+
+    def const(self, e, seen=()):
+        """value of a constant expression: literal, -literal, module-level name, imported name"""
+        try:
+            return ast.literal_eval(e)
+        except Exception:
+            pass
+        if isinstance(e, ast.Name):
+            if e.id in seen:
+                raise ValueError("cyclic constant")
+            if e.id in self.assign:
+                return self.const(self.assign[e.id], seen + (e.id,))
+            if e.id in self.imports and self.depth < 4:
+                path, name = self.imports[e.id]
+                return Module(path, self.root, self.depth + 1).const(ast.Name(id=name, ctx=ast.Load()))
+        if isinstance(e, ast.UnaryOp) and isinstance(e.op, ast.USub):
+            return -self.const(e.operand, seen)
+        raise ValueError("not a constant: " + ast.dump(e)[:80])
+
+
+def _functions(tree):
+    return [n for n in ast.walk(tree) if isinstance(n, (ast.FunctionDef, ast.AsyncFunctionDef))]
+
+
+def _enclosing(tree):
+    """dict node -> innermost enclosing function"""
+    out = {}
+
+    def visit(node, fn):
+        for ch in ast.iter_child_nodes(node):
+            f = ch if isinstance(ch, (ast.FunctionDef, ast.AsyncFunctionDef)) else fn
+            if isinstance(ch, ast.Dict):
+                out[ch] = fn
+            visit(ch, f)
+    visit(tree, None)
+    return out
+
+
+def _param_index(fn, name):
+    names = [a.arg for a in fn.args.posonlyargs + fn.args.args]
+    is_method = bool(names) and names[0] in ("self", "cls")
+    if name in names:
+        return names.index(name) - (1 if is_method else 0), name
+    if name in [a.arg for a in fn.args.kwonlyargs]:
+        return None, name
+    return None
+
+
+def _call_sites(tree, fn):
+    out = []
+    for n in ast.walk(tree):
+        if isinstance(n, ast.Call):
+            f = n.func
+            called = f.id if isinstance(f, ast.Name) else f.attr if isinstance(f, ast.Attribute) else None
+            if called == fn.name:
+                out.append(n)
+    return out
+
+
+def _arg_of(call, fn, pname):
+    """expression supplied for parameter `pname` of `fn` at this call (None if defaulted)"""
+    pi = _param_index(fn, pname)
+    if pi is None:
+        return None
+    idx, kw = pi
+    for k in call.keywords:
+        if k.arg == kw:
+            return k.value
+    if idx is not None and idx < len(call.args):
+        return call.args[idx]
+    return None
+
+
+def _error_literals(mod: Module):
+    """[(code, message-or-None)] of every `{"code": C, "message": M}` the module can build.
+    C and M may be literals, constants, or parameters of the enclosing (builder) function, in
+    which case every call site of the builder in the module contributes its arguments."""
+    found = []
+
+    def is_param(e, fn):
+        return isinstance(e, ast.Name) and fn is not None and e.id not in mod.assign and _param_index(fn, e.id) is not None
+
+    def code_of(e):
+        v = mod.const(e)
+        if isinstance(v, bool) or not isinstance(v, int):
+            raise ValueError("code is not an int")
+        return v
+
+    def text_of(e):
+        if e is None:
+            return None
+        try:
+            v = mod.const(e)
+        except Exception:
+            return None
+        return v if isinstance(v, str) else None
+
+    for d, fn in _enclosing(mod.tree).items():
+        keys = [k.value if isinstance(k, ast.Constant) else None for k in d.keys]
+        if "code" not in keys or "message" not in keys:
+            continue
+        ce, me = d.values[keys.index("code")], d.values[keys.index("message")]
+        if is_param(ce, fn) or is_param(me, fn):
+            sites = [(_arg_of(c, fn, ce.id) if is_param(ce, fn) else ce, _arg_of(c, fn, me.id) if is_param(me, fn) else me)
+                     for c in _call_sites(mod.tree, fn)]
+        else:
+            sites = [(ce, me)]
+        for c, m in sites:
+            if c is None:
+                continue
+            try:
+                found.append((code_of(c), text_of(m)))
+            except Exception:
+                continue
+    return found
+
+
 def extract(src: Path):
-    """-> (values, untranslatable list)"""
+    """-> (values, notes): values always complete (fallbacks), `notes` lists what was not located;
+    values["found"] names what was located in the source"""
     vals = dict(FALLBACK)
-    bad = []
+    vals["found"] = []
+    notes = []
     try:
-        tree = ast.parse((src / "transports/sse/transport.py").read_text())
+        mod = Module(src / "transports/sse/transport.py", src)
     except Exception as ex:  # noqa
         return vals, [f"transports/sse/transport.py: {ex!r}"]
     # connection cap
     try:
-        f = _find_func(tree, "_handle_sse_connection")
         caps = []
-        for n in ast.walk(f):
+        for n in ast.walk(mod.tree):
             if isinstance(n, ast.Call) and isinstance(n.func, ast.Name) and n.func.id == "min" and len(n.args) == 2:
-                names = [a for a in n.args if isinstance(a, ast.Attribute) and a.attr == "timeout"]
-                lits = [a for a in n.args if isinstance(a, ast.Constant)]
-                if len(names) == 1 and len(lits) == 1:
-                    caps.append(_num(lits[0]))
-        if len(caps) != 1 or caps[0] <= 0:
-            bad.append(f"transports/sse/transport.py:_handle_sse_connection: expected one min(self.timeout, <literal>), got {caps}")
-        else:
+                tm = [a for a in n.args if isinstance(a, ast.Attribute) and a.attr == "timeout"]
+                other = [a for a in n.args if not (isinstance(a, ast.Attribute) and a.attr == "timeout")]
+                if len(tm) == 1 and len(other) == 1:
+                    try:
+                        v = mod.const(other[0])
+                        if not isinstance(v, bool) and isinstance(v, (int, float)) and v > 0:
+                            caps.append(v)
+                    except Exception:
+                        pass
+        if len(set(caps)) == 1:
             vals["cap_ms"] = int(round(caps[0] * 1000))
+            vals["found"].append("cap")
+        else:
+            notes.append(f"transports/sse/transport.py: connection cap min(<x>.timeout, CAP) not located uniquely ({caps}); it is measured on the running code")
     except Exception as ex:  # noqa
-        bad.append(f"transports/sse/transport.py:_handle_sse_connection: {ex!r}")
+        notes.append(f"transports/sse/transport.py: connection cap: {ex!r}")
     # synthesised error codes
     try:
-        f = _find_func(tree, "_send_message_via_http")
-        timeout_codes, fail_codes = [], []
-        for n in ast.walk(f):
-            if isinstance(n, ast.Dict):
-                keys = [k.value if isinstance(k, ast.Constant) else None for k in n.keys]
-                if "code" in keys and "message" in keys:
-                    code = _num(n.values[keys.index("code")])
-                    msg = n.values[keys.index("message")]
-                    if isinstance(msg, ast.Constant) and isinstance(msg.value, str) and "timeout" in msg.value.lower():
-                        timeout_codes.append(int(code))
-                    else:
-                        fail_codes.append(int(code))
-        if len(set(timeout_codes)) != 1:
-            bad.append(f"transports/sse/transport.py:_send_message_via_http: expected one timeout error literal, got {timeout_codes}")
+        lits = _error_literals(mod)
+        t_codes = sorted({c for c, m in lits if m is not None and "timeout" in m.lower()})
+        f_codes = sorted({c for c, m in lits if not (m is not None and "timeout" in m.lower())} - set(t_codes))
+        if len(t_codes) == 1 and f_codes:
+            vals["timeout_code"], vals["fail_codes"] = t_codes[0], f_codes
+            vals["found"].append("codes")
         else:
-            vals["timeout_code"] = timeout_codes[0]
-        if not fail_codes:
-            bad.append("transports/sse/transport.py:_send_message_via_http: no failure error literal found")
-        else:
-            vals["fail_codes"] = sorted(set(fail_codes))
+            notes.append(f"transports/sse/transport.py: codes of the synthesised errors not located (timeout {t_codes}, other {f_codes}); "
+                         "synthesised errors are compared without their codes")
     except Exception as ex:  # noqa
-        bad.append(f"transports/sse/transport.py:_send_message_via_http: {ex!r}")
+        notes.append(f"transports/sse/transport.py: synthesised error codes: {ex!r}")
     # default timeout
     try:
-        ptree = ast.parse((src / "transports/sse/parameters.py").read_text())
+        pmod = Module(src / "transports/sse/parameters.py", src)
         found = None
-        for n in ast.walk(ptree):
+        for n in ast.walk(pmod.tree):
             if isinstance(n, ast.ClassDef) and n.name == "SSEParameters":
                 for st in n.body:
                     if isinstance(st, ast.AnnAssign) and isinstance(st.target, ast.Name) and st.target.id == "timeout" and st.value is not None:
-                        found = _num(st.value)
-        if found is None or found <= 0:
-            bad.append("transports/sse/parameters.py: SSEParameters.timeout default is not a positive literal")
+                        found = pmod.const(st.value)
+        if found is None or isinstance(found, bool) or not isinstance(found, (int, float)) or found <= 0:
+            notes.append("transports/sse/parameters.py: SSEParameters.timeout default not located")
         else:
             vals["default_timeout_ms"] = int(round(found * 1000))
+            vals["found"].append("default_timeout")
     except Exception as ex:  # noqa
-        bad.append(f"transports/sse/parameters.py: {ex!r}")
-    return vals, bad
-
-
-@translate.register("SseTiming")
-def gen(src: Path):
-    vals, bad = extract(src)
-    report = {"file": "Gen/SseTiming.lean", "untranslatable": bad, "values": vals}
-    ok = "true" if not bad else "false"
-    codes = "[" + ", ".join(str(c) if c >= 0 else f"({c})" for c in vals["fail_codes"]) + "]"
-    tc = vals["timeout_code"]
-    lean = f"""-- GENERATED by verifpy/translate_sse.py from transports/sse/transport.py, parameters.py. Do not edit.
-namespace Verif.Gen.SseTiming
-
-def translatable : Bool := {ok}
-
-/-- cap on the initial connection attempt (`min(self.timeout, cap)`), milliseconds -/
-def connectCapMs : Nat := {vals["cap_ms"]}
-
-/-- default `SSEParameters.timeout`, milliseconds -/
-def defaultTimeoutMs : Nat := {vals["default_timeout_ms"]}
-
-/-- code of the synthesised "Request timeout" terminal message -/
-def timeoutCode : Int := {tc if tc >= 0 else f"({tc})"}
-
-/-- codes of the other synthesised terminal messages -/
-def failCodes : List Int := {codes}
-
-end Verif.Gen.SseTiming
-"""
-    return lean, report
+        notes.append(f"transports/sse/parameters.py: {ex!r}")
+    return vals, notes
